@@ -14,6 +14,8 @@
 //	start   Start with period 0; Start with a positive period cancelled before its first scan
 //	loop    the run loop performs a real scan after its one-minute delay, then is cancelled between scans or mid-scan
 //	fault, received, cancel0: see fault.go, received.go
+//	listener   (tail of cancel0) scans purging 150-400 messages while an after.message_deleted listener
+//	        does not return (listener.go)
 //	sizelimit  scans of a full memory store with maxkb while deliveries force evictions (sizelimit.go)
 //	assembly   the scanner as server.Services.Start runs it: shutdown requested at any moment of the
 //	        start-up of a full assembly, also one whose listener cannot be opened (assembly.go)
@@ -88,6 +90,12 @@ func init() {
 			m["assembly_join_returned:start-failed"] = 2
 			m["loop_scans_observed"] = 1
 			m["loop_mid_scan_cancels"] = 1
+			// scans with a stuck after.message_deleted listener and 150-400 expired messages (after C12-13)
+			m["listener_scans_returned:mem"] = 2
+			m["listener_scans_returned:file"] = 2
+			m["listener_cancelled_mid_scan"] = 2
+			m["listener_expired_purged"] = 600
+			m["listener_events_entered_while_stuck"] = 1
 			if tier == "thorough" {
 				m["loop_scans_observed"] = 2
 				m["assembly_join_returned:healthy"] = 4
@@ -110,7 +118,16 @@ func run(c *fw.Ctx) {
 	c.Cases("start", c.N(16, 64), func(i int, r *fw.Rand) { runStart(c, i, r) })
 	c.Cases("fault", c.N(60, 900), func(i int, r *fw.Rand) { runFault(c, i, r) })
 	c.Cases("received", c.N(120, 2400), func(i int, r *fw.Rand) { runReceived(c, i, r) })
-	c.Cases("cancel0", c.N(24, 400), func(i int, r *fw.Rand) { runCancel0(c, i, r) })
+	// The tail of cancel0 is the "listener" scenario (listener.go, after C12-13); the cases before it
+	// keep the indices, and so the populations, they always had.
+	nCancel0 := c.N(24, 400)
+	c.Cases("cancel0", nCancel0+c.N(4, 16), func(i int, r *fw.Rand) {
+		if i < nCancel0 {
+			runCancel0(c, i, r)
+		} else {
+			runListener(c, i-nCancel0, r)
+		}
+	})
 	c.Cases("sizelimit", c.N(64, 1200), func(i int, r *fw.Rand) { runSizeLimit(c, i, r) })
 	// exactly one full assembly per child process: pkg/server/web is a process singleton (assembly.go)
 	c.Cases("assembly", c.NBatch, func(i int, r *fw.Rand) { runAssembly(c, i, r) })
